@@ -666,6 +666,23 @@ def check_ids(ctx, version, name, rg=FRESH):
                             ['0x%02X' % i for i in has] or 'no id')), case)
                 ctx.outcome('lookup WRONG')
                 return False
+            # ... and selects it whatever order the set of registered
+            # classes is iterated in: no other registered class may claim
+            # the documented id (which of two claimants ends up in the dict
+            # depends on memory addresses, i.e. on the process)
+            claim = sorted(
+                c.__name__ for c in R.get_clientbound_packets(context)
+                if c is not cls and c.get_id(context) == want)
+            if claim:
+                ctx.violation(
+                    rg.key('lookup-ambiguous v=%d %s' % (version, name)),
+                    rg.what('protocol %d: the documented id 0x%02X of %s '
+                            '(%s) is also claimed by %s; which class decodes '
+                            'it depends on set iteration order'
+                            % (version, want, name, clsname,
+                               ', '.join(claim))), case)
+                ctx.outcome('lookup AMBIGUOUS')
+                return False
             ctx.outcome('reactor lookup selects class')
         else:
             got = cls.get_id(context)
